@@ -7,7 +7,8 @@ from .facts import AnalysisBroken
 from .model import sx, walk, is_var, is_field, const_of, root_var, vars_in, same
 from . import rules
 
-SINKS = {'strncpy', 'strlcpy', 'memcpy', 'memmove', 'strcpy', 'strcat', 'strncat', 'sprintf',
+READ_SINKS = {'fwrite', 'write', 'send'}
+SINKS = {'fwrite', 'strncpy', 'strlcpy', 'memcpy', 'memmove', 'strcpy', 'strcat', 'strncat', 'sprintf',
          'snprintf', 'vsnprintf', 'vsprintf', 'memset', 'gets'}
 # named exclusion: the index arithmetic inside irc_pton needs relational facts (cpos <= ii <= 8)
 EXCLUDED_FUNCS = {'irc_pton': 'index arithmetic over in6[] needs the relational invariant cpos <= ii <= 8 (see DESIGN.md 6, C13)'}
@@ -240,6 +241,21 @@ def classify_call(P, fn, s):
     ev = s.ev
     name = ev['callee']
     a = ev['args']
+    if name == 'fwrite' and len(a) == 4:
+        # reads size*nmemb bytes out of the buffer: the count must stay inside it
+        ex = extent_of(fn, a[0])
+        if ex is None:
+            return '15 fwrite from a heap/unknown buffer', 'not a fixed-size object'
+        sz, nm = const_of(a[1]), a[2]
+        room = (ex[0] - ex[1]) * ex[2]
+        if sz is not None and const_of(nm) is not None:
+            return ('15 fwrite(buf, size, n) with size*n <= sizeof buf', '%d <= %d' % (sz * const_of(nm), room)) if sz * const_of(nm) <= room else (None, 'fwrite reads %d bytes from a %d-byte buffer' % (sz * const_of(nm), room))
+        if sz == 1 and is_var(nm):
+            ub = offset_upper_bound(P, fn, s, nm['name'], ex[0])
+            if ub is not None and ub <= room:
+                return '15 fwrite(buf, 1, n) with n <= sizeof buf', 'n<=%d size=%d' % (ub, room)
+            return None, 'fwrite length %s is not bounded by the buffer size %d (bound found: %s): bytes beyond the buffer would be written out' % (nm['name'], room, ub)
+        return None, 'unrecognised fwrite(%s, %s, %s)' % (sx(a[0]), sx(a[1]), sx(a[2]))
     if name in ('strncpy', 'strlcpy') and len(a) == 3:
         ex = extent_of(fn, a[0])
         n = const_of(a[2])
